@@ -40,6 +40,19 @@ impl log::Log for FormattingSink {
     fn flush(&self) {}
 }
 
+static SECOND_PASS: std::sync::atomic::AtomicBool = std::sync::atomic::AtomicBool::new(false);
+
+/// True during the second, shallower pass of a client-side check that runs with logging switched OFF (the default of an
+/// application that installs no logger): the arguments of the library's log statements are then not evaluated.
+pub fn second_pass() -> bool {
+    SECOND_PASS.load(std::sync::atomic::Ordering::Relaxed)
+}
+
+pub fn begin_second_pass() {
+    SECOND_PASS.store(true, std::sync::atomic::Ordering::Relaxed);
+    log::set_max_level(log::LevelFilter::Off);
+}
+
 /// `VERIF_LOG=off` leaves the log level at its default (Off).
 pub fn install_logger() {
     if std::env::var("VERIF_LOG").map(|v| v == "off").unwrap_or(false) {
@@ -49,6 +62,30 @@ pub fn install_logger() {
     if log::set_logger(&SINK).is_ok() {
         log::set_max_level(log::LevelFilter::Trace);
     }
+}
+
+/// resident set size of this process in GiB (0.0 when /proc is unreadable)
+pub fn rss_gib() -> f64 {
+    std::fs::read_to_string("/proc/self/statm")
+        .ok()
+        .and_then(|s| s.split_whitespace().nth(1).and_then(|p| p.parse::<f64>().ok()))
+        .map(|pages| pages * 4096.0 / (1u64 << 30) as f64)
+        .unwrap_or(0.0)
+}
+
+/// memory above which explorers stop extending their frontier and report a cap (`VERIF_RSS_CAP_GB`, default 30)
+pub fn rss_cap_gib() -> f64 {
+    std::env::var("VERIF_RSS_CAP_GB").ok().and_then(|v| v.parse().ok()).unwrap_or(30.0)
+}
+
+/// Wall-clock watchdog: a check that is still running after the limit is a machinery failure, not a verdict.
+pub fn install_watchdog(thorough: bool) {
+    let limit = std::env::var("VERIF_WALL_CAP_S").ok().and_then(|v| v.parse::<u64>().ok()).unwrap_or(if thorough { 3 * 3600 } else { 1200 });
+    std::thread::spawn(move || {
+        std::thread::sleep(std::time::Duration::from_secs(limit));
+        println!("MACHINERY-ERROR wall-clock cap of {} s reached (VERIF_WALL_CAP_S to change)", limit);
+        std::process::exit(2);
+    });
 }
 
 pub fn install_panic_hook() {
@@ -182,6 +219,10 @@ impl Report {
             }
         }
     }
+    /// number of violation occurrences recorded so far (all findings)
+    pub fn total_occurrences(&self) -> u64 {
+        self.violations.values().map(|(_, n)| *n as u64).sum()
+    }
     pub fn merge(&mut self, o: Report) {
         self.evaluations += o.evaluations;
         self.distinct.extend(o.distinct);
@@ -308,6 +349,43 @@ pub fn finish(ctx: &RunCtx, mut rep: Report, fin: Finish) -> i32 {
     };
 
     let mut machinery_error: Option<String> = None;
+    if second_pass() {
+        // the second pass only adds to the evidence of the first and reports its own violations
+        let mut new_violations = 0;
+        let _ = std::fs::create_dir_all(format!("{}/replays", verif_dir()));
+        for (key, (v, count)) in &rep.violations {
+            if let Some(what) = is_known(key) {
+                println!("KNOWN-FINDING: property={} {} ({}; observed {} times with logging off)", ctx.property, key, what, count);
+                continue;
+            }
+            new_violations += 1;
+            let digest = format!("{:016x}", hash64(&format!("{}#logging-off", key)));
+            let path = format!("{}/replays/{}-{}.json", verif_dir(), ctx.property, digest);
+            let body = json!({"property": ctx.property, "finding_key": key, "detail": v.detail, "occurrences": count, "log_level": "off", "replay": v.replay});
+            let _ = std::fs::write(&path, serde_json::to_string_pretty(&body).unwrap());
+            println!("  violation key={} detail={} (only the pass with logging OFF shows it; replay with VERIF_LOG=off)", key, v.detail);
+            println!("VIOLATION property={} replay={}", ctx.property, path);
+        }
+        let evp = format!("{}/evidence/{}.json", verif_dir(), ctx.property);
+        if let Ok(txt) = std::fs::read_to_string(&evp) {
+            if let Ok(mut ev) = serde_json::from_str::<Value>(&txt) {
+                ev["coverage"]["second_pass_logging_off"] = json!({
+                    "what": "the same check once more with the log level Off (first pass: Trace with a formatting sink) and shallower bounds",
+                    "states": rep.states, "transitions": rep.transitions, "evaluations": rep.evaluations,
+                    "distinct_outcomes": rep.outcomes.len(), "violations": new_violations, "bounds": fin.bounds,
+                });
+                if new_violations > 0 {
+                    ev["violations"] = json!(ev["violations"].as_u64().unwrap_or(0) + new_violations);
+                }
+                let _ = std::fs::write(&evp, serde_json::to_string_pretty(&ev).unwrap());
+            }
+        }
+        println!(
+            "{} {} (second pass, logging off): states={} transitions={} outcomes={} violations={} wall={:.1}s",
+            ctx.property, ctx.tier, rep.states, rep.transitions, rep.outcomes.len(), new_violations, ctx.start.elapsed().as_secs_f64()
+        );
+        return if new_violations > 0 { 1 } else { 0 };
+    }
     for s in &fin.required_symbols {
         if rep.symbols.get(*s).copied().unwrap_or(0) == 0 {
             machinery_error = Some(format!("vacuity guard: symbol '{}' never fired", s));
